@@ -147,6 +147,9 @@ def gen(t, tier):
     sc['lazy'] = bool(t.chance(0.3))
     # one flock() call on a tile lock file fails for a reason other than contention (no lock records left, a hiccup of the
     # lock daemon of a network file system): that attempt did not get the lock
+    # per-level SQLite cache: a cleanup (remove_all) has removed the database file of the level after the server had opened
+    # it; the first requests re-create it
+    sc['level_dropped'] = sc['backend']['type'] == 'sqlite' and not sc['lazy'] and bool(t.chance(0.4))
     sc['flock_fault'] = {'at': t.choice(10), 'errno': t.pick(['ENOLCK', 'ENOLCK', 'EIO'])} if t.chance(0.15) else None
     # linked single-colour tiles under a refresh rule: the file shared by all tiles of the colour was written hours ago (by a
     # tile nobody asks for now), tiles older than an hour are to be refreshed
@@ -594,9 +597,14 @@ def _run_tm(sc, tape):
                 else:
                     tm = make_tm()
                     first_tm = first_tm or tm
+                    if sc.get('level_dropped'):
+                        tm.cache._get_level(sc['level'])        # the process has the level open
                 for ci, reqs in enumerate(p['clients']):
                     sched.spawn(client('p%dc%d' % (pi, ci), tm, reqs, (p.get('dims') or [None] * (ci + 1))[ci]),
                                 'p%dc%d' % (pi, ci), proc)
+            if sc.get('level_dropped') and first_tm is not None:
+                first_tm.cache.remove_level_tiles_before(sc['level'], remove_all=True)
+                faults['level_database_removed_after_start'] = 1
             if sc.get('aged_colour'):
                 w.clock.now -= 7200
                 make_cache().store_tile(C.make_tile((0, 31, 5), C.payload({'color': list(U.OCEAN)}, w=U.TS, h=U.TS)))
